@@ -100,6 +100,7 @@ func genC04(g *Gen) {
 			g.do(Step{Op: "QFrames", Recv: gid})
 		}
 	})
+	g.runsWithHoles("GroupBy", toBS("rid"))
 	g.keyProducts("GroupBy", toBS("rid"))
 	g.largeKeyed("GroupBy", toBS("rid"))
 	g.groupArrangements(4)
@@ -204,6 +205,7 @@ func genC05(g *Gen) {
 			g.do(Step{Op: "Distinct", Recv: f, Cols: bsList(k), Null: g.rng.Intn(2) == 0})
 		}
 	})
+	g.runsWithHoles("Distinct", rid)
 	g.keyProducts("Distinct", rid)
 	g.largeKeyed("Distinct", rid)
 	sizes := []int{0, 1, 2, 3, 5, 9, 17, 33, 70, 140}
@@ -383,5 +385,47 @@ func (g *Gen) largeKeyed(op string, rid BS) {
 			}
 			g.end()
 		}
+	}
+}
+
+// runsWithHoles: keys stored in runs of equal values (1 1 1 2 2 2 ...), of which a Filter or a Slice then
+// keeps only some rows - so that a kept row's stored predecessor carries the same key but is not part of
+// the frame - optionally re-sorted; then grouped / deduplicated
+func (g *Gen) runsWithHoles(op string, rid BS) {
+	for rep := 0; rep < g.pick(40, 400); rep++ {
+		n := 4 + g.rng.Intn(28)
+		run := 1 + g.rng.Intn(4)
+		k, keep := make([]int64, n), make([]int64, n)
+		sv := make([]*BS, n)
+		for i := range k {
+			k[i] = int64(i / run)
+			keep[i] = int64(g.rng.Intn(2))
+			sv[i] = bsp("k" + itoa(i/run))
+		}
+		g.begin("runs with holes")
+		f := g.do(Step{Op: "New", Recv: -1, HasOrder: true, ColOrder: bsList([]string{"K", "S", "KEEP"}), Data: []ColData{{Name: toBS("K"), Kind: "int", Ints: k},
+			{Name: toBS("S"), Kind: "string", Strs: sv}, {Name: toBS("KEEP"), Kind: "int", Ints: keep}}})
+		f = g.do(Step{Op: "WithRowNums", Recv: f, Dst: rid})
+		switch g.rng.Intn(3) {
+		case 0:
+			cl := Clause{K: "leaf", Col: toBS("KEEP"), CmpK: "str", Cmp: "=", Arg: &Val{T: "int", I: 1}}
+			f = g.do(Step{Op: "Filter", Recv: f, Clause: &cl})
+		case 1:
+			a := 1 + g.rng.Intn(n-2)
+			f = g.do(Step{Op: "Slice", Recv: f, A: a, B: a + 1 + g.rng.Intn(n-a-1)})
+		default:
+			f = g.do(Step{Op: "Distinct", Recv: f, Cols: bsList([]string{"K", "KEEP"}), Rid: rid})
+		}
+		if g.rng.Intn(3) == 0 {
+			f = g.do(Step{Op: "Sort", Recv: f, Orders: []Order{{Col: toBS("KEEP")}, {Col: rid, Rev: true}}, Rid: rid})
+		}
+		for _, key := range []string{"K", "S"} {
+			if op == "GroupBy" {
+				g.do(Step{Op: "GroupBy", Recv: f, Cols: bsList([]string{key}), Rid: rid})
+			} else {
+				g.do(Step{Op: "Distinct", Recv: f, Cols: bsList([]string{key}), Rid: rid})
+			}
+		}
+		g.end()
 	}
 }
